@@ -340,7 +340,11 @@ def _run_graph(case, obs, budget=100_000):  # observed maximum on the unchanged 
             if be:
                 kw["backend"] = be
             who = f"kruskal[{be or 'default'},forest={af}]"
-            res = call(obs, _mst.kruskal, n, list(edges), what=who, budget=budget, **kw)
+            given = list(edges)
+            res = call(obs, _mst.kruskal, n, given, what=who, budget=budget, **kw)
+            if given != list(edges):
+                # not part of the statement (every answer is still judged on the graph that was passed): recorded only
+                obs.event("info.callers-edge-list-modified")
             _drain(obs)
             if is_crash(res):
                 continue
